@@ -327,7 +327,7 @@ func init() {
 	Register(&Property{
 		ID: "C07",
 		Explanation: "Decides the structural clauses of canonical formatting: indentation changes are balanced on all paths and written as four spaces " +
-			"per level, comments are written through TrimSpace, number literals are printed in the only notation the lexer accepts (R-INDENTPAIR); " +
+			"per level, other formatter state written by a re-entrant function is restored on every return path, comments are written through TrimSpace, number literals are printed in the only notation the lexer accepts (R-INDENTPAIR); " +
 			"`--check` compares the input with the formatter's own output and fails exactly on the unequal edge, and an unformatted file ends a " +
 			"multi-file run with a non-zero status (R-ATOMICWRITE W5–W7); the blank line before a func and its leading comments is placed behind the statement that directly precedes them, " +
 			"which is what makes a second pass find it in place (R-BLANKBEFORE).",
